@@ -17,7 +17,11 @@ Status summary (see `C17_full` at the end). The LIVE model is the repaired worke
   about the OLD protocol     : bf_terminates_refuted_old (witness of finding F14: the hang that was
                                reproduced on the code before the repair), bf_terminates_partial_old,
                                c17_full_old_refuted
-  stated, not proved         : C17_seq_paths_full (stack DFS = recursive path spec); tested by the tie only
+  sequential helpers         : seq_helper_eq_spec and its instances traversePaths_eq_spec, terminals_eq_spec,
+                               acyclicNodes_eq_spec, intermediaryPaths_eq_spec (result = skip/limit window
+                               of the FILTERED DFS candidate sequence, all graphs/filters/skip/limit)
+  stated, not proved         : C17_seq_paths_full (the DFS candidate order of TraversePaths = the recursive
+                               path definition); tested by the tie only
   outside the LTS (observed) : goroutine exit of the pipe after return, wall-clock promptness,
                                the unsynchronised PathSegment.size roll-up
 -/
@@ -308,6 +312,75 @@ theorem range_partition_exact (max stride : Nat) (hs : 0 < stride) :
   ⟨fun id hid => Seq.floorsLoop_cover max stride id hs (max + 1) 0 (Nat.zero_le _) hid (by omega),
    Seq.floorsLoop_le max stride (max + 1) 0⟩
 
+/-- Every sequential helper of ops/traversal.go (TraversePaths, AcyclicTraverseTerminals,
+AcyclicTraverseNodes, TraverseIntermediaryPaths — `p.helper`), on every ordered adjacency, with any
+node / descent / path filters, any skip and limit (negative too): what the stack loop of
+`ops.Traversal` collects (model `Seq.loop`, a call-by-call transcription with the `break` at the limit)
+is exactly the plan-defined result `Seq.specOut`: the DFS candidate sequence with the FILTERS APPLIED
+FIRST, and THEN the skip/limit window over that filtered sequence. In particular a node the filter
+rejects never consumes skip or limit budget. -/
+theorem seq_helper_eq_spec (p : Seq.Plan) (root : Nat) (skip limit : Int) (fuel : Nat) :
+    (Seq.loop p fuel (Seq.start root skip limit)).out = Seq.specOut p root skip limit fuel := by
+  have h := Seq.loop_out p fuel (Seq.start root skip limit) (by intro h; cases h)
+  rw [h]
+  show [] ++ _ = _
+  rw [List.nil_append, Seq.offer_window _ rfl]
+  rfl
+
+/-- TraversePaths: the returned paths, in order -/
+theorem traversePaths_eq_spec (p : Seq.Plan) (_hp : p.helper = .paths) (root : Nat) (skip limit : Int) (fuel : Nat) :
+    (Seq.loop p fuel (Seq.start root skip limit)).out.map (fun s => (s.pathNodes, s.pathEdges)) =
+      (Seq.specOut p root skip limit fuel).map (fun s => (s.pathNodes, s.pathEdges)) := by
+  rw [seq_helper_eq_spec]
+
+/-- AcyclicTraverseTerminals: the collected terminal nodes (a set in Go; here the sequence that is added to it) -/
+theorem terminals_eq_spec (p : Seq.Plan) (_hp : p.helper = .terminals) (root : Nat) (skip limit : Int) (fuel : Nat) :
+    (Seq.loop p fuel (Seq.start root skip limit)).out.map Seq.Seg.node =
+      (Seq.specOut p root skip limit fuel).map Seq.Seg.node := by
+  rw [seq_helper_eq_spec]
+
+/-- AcyclicTraverseNodes: the root (tested against the node filter outside skip/limit) plus the collected
+nodes; every collected node passed the node filter BEFORE it was counted. -/
+theorem acyclicNodes_eq_spec (p : Seq.Plan) (hp : p.helper = .nodes) (root : Nat) (skip limit : Int) (fuel : Nat) :
+    Seq.rootIncluded p root ++ (Seq.loop p fuel (Seq.start root skip limit)).out.map Seq.Seg.node =
+      Seq.rootIncluded p root ++ (Seq.specOut p root skip limit fuel).map Seq.Seg.node ∧
+    (∀ (c : Seq.Core) (f : Nat), ∀ s ∈ Seq.events p f c, Seq.optAccept p.nodeFilter s.node = true) := by
+  refine ⟨by rw [seq_helper_eq_spec], ?_⟩
+  intro c f
+  induction f generalizing c with
+  | zero => intro s hs; cases hs
+  | succ n ih =>
+    intro s hs
+    unfold Seq.events at hs
+    cases hc : Seq.iterCore p c with
+    | none => rw [hc] at hs; cases hs
+    | some r =>
+      obtain ⟨c', off⟩ := r
+      rw [hc] at hs
+      rcases List.mem_append.mp hs with h | h
+      · unfold Seq.iterCore at hc
+        cases hst : c.stack with
+        | nil => rw [hst] at hc; cases hc
+        | cons next below =>
+          rw [hst] at hc
+          simp only [Option.some.injEq, Prod.mk.injEq] at hc
+          rw [← hc.2] at h
+          have hv : Seq.offeredByVisit p next
+              (List.filter (Seq.pushOK p) (Seq.expandNext p c.visited next).2).isEmpty = false := by
+            simp [Seq.offeredByVisit, hp]
+          rw [hv] at h
+          simp only [Bool.false_eq_true, if_false, List.append_nil, List.mem_filter] at h
+          have := h.2
+          simp only [Seq.offeredByDescent, Bool.and_eq_true] at this
+          exact this.2
+      · exact ih c' s h
+
+/-- TraverseIntermediaryPaths: the returned paths, in order -/
+theorem intermediaryPaths_eq_spec (p : Seq.Plan) (_hp : p.helper = .intermediary) (root : Nat) (skip limit : Int) (fuel : Nat) :
+    (Seq.loop p fuel (Seq.start root skip limit)).out.map (fun s => (s.pathNodes, s.pathEdges)) =
+      (Seq.specOut p root skip limit fuel).map (fun s => (s.pathNodes, s.pathEdges)) := by
+  rw [seq_helper_eq_spec]
+
 /-! ## the full statement, and what is proved of it -/
 
 def PipeSpec : Prop :=
@@ -334,16 +407,19 @@ def BFLive (cfg : Cfg) : Prop :=
 def SeqCore : Prop :=
   (∀ (skip limit : Int) (xs : List Nat),
       (({ limit := limit, skip := skip } : Seq.Tracker).offer xs).2 = Seq.window skip limit xs) ∧
-  (∀ max stride, 0 < stride → ∀ id, id ≤ max → (Seq.floors max stride).countP (Seq.inWindow stride id) = 1)
+  (∀ max stride, 0 < stride → ∀ id, id ≤ max → (Seq.floors max stride).countP (Seq.inWindow stride id) = 1) ∧
+  (∀ (p : Seq.Plan) (root : Nat) (skip limit : Int) (fuel : Nat),
+      (Seq.loop p fuel (Seq.start root skip limit)).out = Seq.specOut p root skip limit fuel)
 
-/-- stated, NOT proved: the stack DFS of ops.Traversal returns the plan-defined paths (recursive
-spec, then the skip/limit window) on every finite graph. Exercised by the tie only. -/
+/-- stated, NOT proved: for TraversePaths without user filters the DFS candidate sequence
+(`Seq.events`, the order in which the stack loop reaches path terminals) is the recursively defined
+list of maximal acyclic paths (`Seq.pathsSpec`) on every finite graph. Exercised by the tie only. -/
 def C17_seq_paths_full : Prop :=
-  ∀ (adj : Nat → List (Nat × Nat)) (root : Nat) (skip limit : Int),
+  ∀ (adj : Nat → List (Nat × Nat)) (root : Nat),
     (∃ f0, ∀ f, f0 ≤ f → Seq.pathsSpec adj f { root := root, steps := [] } = Seq.pathsSpec adj f0 { root := root, steps := [] }) →
     ∃ f0, ∀ f, f0 ≤ f →
-      (Seq.loop adj .paths f (Seq.start .paths root skip limit)).outPaths.reverse =
-        Seq.window skip limit (Seq.pathsSpec adj f { root := root, steps := [] })
+      Seq.events { adj := adj, helper := .paths } f { stack := [{ root := root, steps := [] }], visited := [] } =
+        Seq.pathsSpec adj f { root := root, steps := [] }
 
 /-- C17 at full strength on the LIVE model (repaired worker error branch, `fixed = true`). -/
 def C17_full : Prop :=
@@ -374,7 +450,8 @@ theorem c17_partial : C17_partial := by
     refine ⟨(bf_measure cfg).1, fun s h hnr => ?_⟩
     obtain ⟨a, s', he, hs, _⟩ := bf_terminates cfg hn hf s h hnr
     exact ⟨a, s', he, hs⟩
-  · exact ⟨fun skip limit xs => limit_skip_window skip limit xs, fun max stride hs => (range_partition_exact max stride hs).1⟩
+  · exact ⟨fun skip limit xs => limit_skip_window skip limit xs, fun max stride hs => (range_partition_exact max stride hs).1,
+      seq_helper_eq_spec⟩
 
 /-- the only gap between what is proved and the full statement is the DFS = spec equation -/
 theorem c17_full_of_seq_paths (h : C17_seq_paths_full) : C17_full :=
@@ -443,6 +520,14 @@ example : callsOk (parentsOf exTree) [0, 1, 3, 2, 4] matches .ok := by decide
 example : callsOk (parentsOf exTree) [0, 3, 1] matches .reject "orphan" _ := by decide
 example : callsOk (parentsOf exTree) [0, 1, 1] matches .reject "duplicate" _ := by decide
 example : callsComplete (parentsOf exTree) [0, 1, 2, 3] matches .reject "lost" _ := by decide
+
+/-- AcyclicTraverseNodes on 1→2, 1→3, 1→4, 1→5 with a node filter rejecting 3 (the regression seeded in
+review): Limit = 2 must give {2,4} and Skip = 1 must give {4,5}: the rejected node consumes no budget -/
+def exAdj : Nat → List (Nat × Nat) := fun n => if n = 1 then [(10, 2), (11, 3), (12, 4), (13, 5)] else []
+def exPlan : Seq.Plan := { adj := exAdj, helper := .nodes, nodeFilter := some (fun n => n != 3) }
+example : (Seq.loop exPlan 10 (Seq.start 1 0 2)).out.map Seq.Seg.node = [2, 4] := by decide
+example : (Seq.loop exPlan 10 (Seq.start 1 1 0)).out.map Seq.Seg.node = [4, 5] := by decide
+example : (Seq.specOut exPlan 1 0 2 10).map Seq.Seg.node = [2, 4] := by decide
 
 /-- sequential helpers on samples (tests, not proofs) -/
 example : (({ limit := 2, skip := 1 } : Seq.Tracker).offer [10, 11, 12, 13, 14]).2 = [11, 12] := by decide
